@@ -164,6 +164,28 @@ fn run_program(p: &Program, v: &mut Verdict) {
             return;
         }
     }
+    // decoding through the iterator adaptors (skip / step_by use Iterator::nth): streams that progress unequally
+    // must stay in step when points are skipped across the end of a decoded batch
+    let r = guard(|| -> Result<Option<String>, String> {
+        let mut rd = e57::E57Reader::new(MemDev::with_data(bytes.clone())).map_err(|e| e.to_string())?;
+        let pcs = rd.pointclouds();
+        for (ci, (spec, pc)) in specs.iter().filter(|s| s.finalize).zip(pcs.iter()).enumerate() {
+            let pts = spec.points();
+            let n = pts.len();
+            for (skip, step) in [(1usize, 3usize), (n / 2, (n / 3).max(1))] {
+                if let Some(m) = crate::adapt::check_strided(&mut rd, pc, &pts, skip, step, false)? {
+                    return Ok(Some(format!("cloud {ci}: {m}")));
+                }
+            }
+        }
+        Ok(None)
+    });
+    match r {
+        Err(pn) => v.fail(format!("reader panicked under skip/step_by: {pn}")),
+        Ok(Err(e)) => v.fail(format!("own reader cannot open the written file: {e}")),
+        Ok(Ok(Some(m))) => v.fail(m),
+        Ok(Ok(None)) => {}
+    }
 }
 
 impl Check for C12 {
@@ -175,7 +197,7 @@ impl Check for C12 {
          within a byte occurs x every cut position of the byte stream into two data packets; files are encoded by e57ref's bit-by-bit codec and \
          must decode through pointcloud_raw to the encoded values. Writer direction: prototypes 3 x f64 + integer records of every width (and a \
          companion width) with cap-1, cap, cap+1, 2cap+1 points, very wide prototypes (600 - 1000 enumerated, 300 - 1200 generated extension \
-         records narrower than a byte, 5 - 9 packets), plus random programs (incl. compact prototypes over up to 8 packets): per record the written stream must have exactly \
+         records narrower than a byte, 5 - 9 packets), plus random programs (incl. compact prototypes over up to 8 packets): every written cloud is also decoded through skip(k).step_by(m) of the raw iterator; per record the written stream must have exactly \
          ceil(N*w/8) bytes and bit i*w+b must equal bit b of value_i - min (LSB first). Non-trivial: width not a multiple of 8, or 0, or 64, \
          or negative minimum, or a partial byte carried over a packet boundary."
             .into()
